@@ -240,9 +240,11 @@ func ruleC05R3(c *Ctx) {
 			okIter = true
 		}
 	}
+	// the WHOLE parameter slice is sorted (a sorted prefix + sorted rest is not sorted)
 	okSorted := false
 	for _, s := range sorts {
-		if mentions(s.Common().Args[0], func(x ssa.Value) bool { return x == ssa.Value(fn.Params[0]) }) {
+		arg := resolve(s.Common().Args[0])
+		if arg == ssa.Value(fn.Params[0]) {
 			okSorted = true
 		}
 	}
